@@ -45,6 +45,9 @@ inductive Item where
   | failing (o : Op)                  -- a step that performs `o` on the stack and then returns `Err`
   | try_ (i : Item)                   -- the caller looks at the result of `i` and carries on
   | scope (k : Kind) (body : Items)   -- `body` in a child scope
+  /-- `state.holding::<Populations>(|pops, _| { ops on pops; if ok { Ok(()) } else { Err(..) } })`: the stack is taken out
+  of the registry that owns it, edited directly, and goes back into that registry whatever the closure returns. -/
+  | hold (ok : Bool) (ops : List Op)
 /-- A `Block` / closure body: steps chained with `?`. -/
 inductive Items where
   | nil
@@ -67,6 +70,7 @@ def Item.skips : Item → List SOut
   | .failing _ => [.skip]
   | .try_ i => i.skips
   | .scope _ b => .skip :: b.skips
+  | .hold _ ops => .skip :: ops.map fun _ => .skip
 def Items.skips : Items → List SOut
   | .nil => []
   | .cons i is => i.skips ++ is.skips
@@ -74,6 +78,7 @@ end
 
 def Out.isErr : Out → Bool
   | .err => true
+  | .errH _ => true
   | _ => false
 
 /-! ### The registry chain -/
@@ -127,6 +132,12 @@ def execItem (c : Chain) : Item → Chain × List SOut × Bool
       let ok := r.2.2 && k.mergeOk
       (c', (if ok then SOut.sOk else SOut.sErr) :: r.2.1, ok)
     | none => ([none], SOut.sPanic :: r.2.1, false)
+  | .hold ok ops =>
+    -- `find_mut::<T>()?` (the first registry towards the root that owns the stack), marker in, `T` out, `f`,
+    -- `find_mut::<Marker<T>>()` = that same registry, `T` back in, then the closure's result
+    match find c with
+    | some s => (put c (run s ops).1, (if ok then SOut.sOk else SOut.sErr) :: (run s ops).2.map SOut.out, ok)
+    | none => (c, SOut.sErr :: ops.map fun _ => SOut.skip, false)
 def execItems (c : Chain) : Items → Chain × List SOut × Bool
   | .nil => (c, [], true)
   | .cons i is =>
@@ -148,6 +159,7 @@ def specItem (s : Spec) : Item → Spec × List SOut × Bool
     let r := if k.runsBody then specItems s body else (s, body.skips, false)
     let ok := r.2.2 && k.mergeOk
     (r.1, (if ok then SOut.sOk else SOut.sErr) :: r.2.1, ok)
+  | .hold ok ops => ((specRun s ops).1, (if ok then SOut.sOk else SOut.sErr) :: (specRun s ops).2.map SOut.out, ok)
 def specItems (s : Spec) : Items → Spec × List SOut × Bool
   | .nil => (s, [], true)
   | .cons i is =>
@@ -178,6 +190,7 @@ def Item.ops : Item → List Op
   | .failing o => [o]
   | .try_ i => i.ops
   | .scope _ b => b.ops
+  | .hold _ os => os
 def Items.ops : Items → List Op
   | .nil => []
   | .cons i is => i.ops ++ is.ops
@@ -211,7 +224,7 @@ def witnessed (op : Op) (o : Option Sexp) : Op :=
   | some x => op.withWitness x
   | none => op
 
-/-- `ITEM ∈ OP | (fail) | (failing OP) | (try ITEM) | (cl ITEM*) | (sc ITEM*) | (cf ITEM*) | (if ITEM*) | (mf ITEM*)`.
+/-- `ITEM ∈ OP | (hold OP*) | (hold-err OP*) | (fail) | (failing OP) | (try ITEM) | (cl ITEM*) | (sc ITEM*) | (cf ITEM*) | (if ITEM*) | (mf ITEM*)`.
 The implementation's outputs (one per node, program order) are consumed alongside and supply the witnesses. -/
 def parseItem : Nat → Sexp → List Sexp → Option (Item × List Sexp)
   | 0, _, _ => none
@@ -227,6 +240,12 @@ def parseItem : Nat → Sexp → List Sexp → Option (Item × List Sexp)
       let op ← Op.parse? o
       pure (.failing (witnessed op (nextOut outs).1), (nextOut outs).2)
     | .list [.atom "try", i] => (parseItem n i outs).map fun p => (.try_ p.1, p.2)
+    | .list (.atom "hold" :: xs) => do
+      let ops ← xs.mapM Op.parseBase?
+      pure (.hold true ops, (nextOut outs).2.drop ops.length)
+    | .list (.atom "hold-err" :: xs) => do
+      let ops ← xs.mapM Op.parseBase?
+      pure (.hold false ops, (nextOut outs).2.drop ops.length)
     | .list (.atom h :: xs) =>
       match Kind.parse? h with
       | some k => do
